@@ -88,4 +88,19 @@ theorem header_counts_consistent (m : MatrixModel) : nlvoi m ≤ nlvo m ∧ nlvo
   unfold nlvo
   omega
 
+/-- `std::vector<bool>::resize(n, fill)` (library semantics, hand-written) -/
+def vecResize (l : List Bool) (n : Nat) (fill : Bool) : List Bool := l.take n ++ List.replicate (n - l.length) fill
+
+/-- the hand model `applyAddVars` is `vector::resize` to the GENERATED new size with the GENERATED fill value of
+`BasicProblem::AddVars`, for any two distinct enum codes of `var::CONTINUOUS` / `var::INTEGER` -/
+theorem applyAddVars_eq_gen (l : List Bool) (c : Int × Bool) (contVal intVal : Int) (h : contVal ≠ intVal) :
+    applyAddVars l c =
+      vecResize l (addVarsNewSize l.length c.1).toNat (addVarsFill (if c.2 then intVal else contVal) contVal) := by
+  unfold applyAddVars vecResize addVarsNewSize addVarsFill
+  have hf : decide ((if c.2 then intVal else contVal) ≠ contVal) = c.2 := by
+    cases c.2
+    · simp
+    · simp; exact fun hh => h hh.symm
+  simp only [hf]
+
 end MpVerif.C08
